@@ -363,7 +363,7 @@ func lkRun(t *testing.T, r *vfRand, c *lkCase, public bool, hooks ...*lkHooks) *
 		}
 		j, ok := byID[call.p]
 		if !ok || c.peers[j].outcome != lkAnswer {
-			return nil, fmt.Errorf("sim: request failed")
+			return nil, simReqErr(call.p, "request failed")
 		}
 		resp := pb.NewMessage(call.req.GetType(), call.req.GetKey(), 0)
 		infos := make([]peer.AddrInfo, 0, len(c.peers[j].closer))
